@@ -290,6 +290,8 @@ def main(argv=None, sis=False):
     gillespie_part(chk, sis, "Gillespie_SIS" if sis else "Gillespie_SIR")
     special_part(chk, sis, "Gillespie_SIS" if sis else "Gillespie_SIR")
     fast_part(chk, sis, EoN)
+    from harness import stamina
+    stamina.probe(EoN, chk, entry="weighted sampler of Gillespie_%s" % ("SIS" if sis else "SIR"))
     rule = ("every (weighted graph, rate pair, initial status vector with >=1 infected node) of the TLC-emitted NetEpi state graph is one scenario; "
             "the implementation's complete decision tree under the scripted random source is enumerated (leaves = evaluations) and compared at every "
             "history with the chain's enabled events, their probabilities, the clock rate and the stopping states; non-trivial = the tree contains at least one event")
